@@ -124,8 +124,8 @@ example : exampleCode.Legal examplePool none := by
       intro a ha
       simp only [List.mem_cons, List.not_mem_nil, or_false] at ha
       rcases ha with rfl | rfl
-      · exact ⟨⟨Or.inl rfl, by decide, by simp [exampleCode]⟩, ⟨by decide, by simp⟩, by decide, rfl, by decide, trivial⟩
-      · exact ⟨⟨by decide, by decide, by decide⟩, ⟨by decide, by simp⟩, by decide, rfl, by decide, trivial⟩
+      · exact ⟨⟨Or.inl rfl, by decide, by simp [exampleCode]⟩, ⟨by decide, by simp⟩, ⟨by decide, rfl, by decide, trivial⟩, by decide⟩
+      · exact ⟨⟨by decide, by decide, by decide⟩, ⟨by decide, by simp⟩, ⟨by decide, rfl, by decide, trivial⟩, by decide⟩
 
 /-! ## modified UTF-8 (`jstring.rs`, `java_string`) -/
 
@@ -148,17 +148,49 @@ theorem mutf8_split_pair_witness : Mutf8.decode (Mutf8.encode [0xd800, 0xdc00]) 
 
 /-! ## annotations -/
 
-/-- `annotation_read_encode`: an annotation with element values of every kind (`B C D F I J S Z s e c @ [`), nested to
-any depth, any pool indices resolving to its constants, is read back as exactly its description; the recursion fuel
-the model needs (`2 * bytes + 2`) always suffices -/
-theorem annotation_read_encode (p : Pool) (a : SAnno) (ha : a.Legal p) (r : Bytes) :
+/-- `annotation_read_encode`: an annotation with element values of every kind (`B C D F I J S Z s e c @ [`), nested up
+to the reader's limit of 255 levels (`a.Ok p` = `a.Legal p ∧ a.nest ≤ 255`, a decidable bound), any pool indices
+resolving to its constants, is read back as exactly its description; the recursion fuel the model needs
+(`2 * bytes + 2`) always suffices -/
+theorem annotation_read_encode (p : Pool) (a : SAnno) (ha : a.Ok p) (r : Bytes) :
     readAnnotation p (a.encode ++ r) = ok (a.fact, r) :=
   readAnnotation_enc p a ha r
 
-example : (SAnno.mk 1 [76, 65, 59] [.mk 2 [118] (.arr [.str 2 [118], .anno (.mk 1 [76, 65, 59] [])])]).Legal
+example : (SAnno.mk 1 [76, 65, 59] [.mk 2 [118] (.arr [.str 2 [118], .anno (.mk 1 [76, 65, 59] [])])]).Ok
     (poolTable [.utf8 [76, 65, 59], .utf8 [118]]) := by
+  refine ⟨?_, by decide⟩
   simp [SAnno.Legal, pairsLegal, SPair.Legal, SElem.Legal, elemsLegal]
   exact ⟨rfl, rfl, rfl⟩
+
+/-- `k` nested arrays around a string -/
+def deepElem : Nat → SElem
+  | 0 => .str 2 [118]
+  | k + 1 => .arr [deepElem k]
+
+theorem deepElem_nest (k : Nat) : (deepElem k).nest = k := by
+  induction k with
+  | zero => rfl
+  | succ k ih => simp [deepElem, SElem.nest, elemsNest, ih]
+
+theorem deepElem_legal (k : Nat) : (deepElem k).Legal (poolTable [.utf8 [76, 65, 59], .utf8 [118]]) := by
+  induction k with
+  | zero => exact ⟨by decide, rfl⟩
+  | succ k ih => exact ⟨by simp, ih, trivial⟩
+
+/-- `annotation_depth_limit_witness` (deliberate limit of the reader since 835fdd2, `MAX_ELEMENT_VALUE_DEPTH = 255`): every
+JVMS-legal annotation whose element values nest deeper than 255 levels is **rejected** (`err`), so the bound in
+`annotation_read_encode` is exact; e.g. `@A(v = [[…["v"]…]])` with 256 brackets is legal, nests 256 levels and is not
+read, with 255 brackets it is -/
+theorem annotation_depth_limit_witness :
+    (∀ (p : Pool) (a : SAnno), a.Legal p → 255 < a.nest → ∀ r, readAnnotation p (a.encode ++ r) = err) ∧
+    (SAnno.mk 1 [76, 65, 59] [.mk 2 [118] (deepElem 256)]).Legal (poolTable [.utf8 [76, 65, 59], .utf8 [118]]) ∧
+    (SAnno.mk 1 [76, 65, 59] [.mk 2 [118] (deepElem 256)]).nest = 256 ∧
+    (SAnno.mk 1 [76, 65, 59] [.mk 2 [118] (deepElem 255)]).Ok (poolTable [.utf8 [76, 65, 59], .utf8 [118]]) := by
+  refine ⟨fun p a ha hn r => readAnnotation_deep p a ha hn r, ?_, ?_, ?_, ?_⟩
+  · exact ⟨by decide, rfl, by decide, ⟨by decide, rfl, deepElem_legal 256⟩, trivial⟩
+  · simp [SAnno.nest, pairsNest, SPair.nest, deepElem_nest]
+  · exact ⟨by decide, rfl, by decide, ⟨by decide, rfl, deepElem_legal 255⟩, trivial⟩
+  · simp [SAnno.nest, pairsNest, SPair.nest, deepElem_nest]
 
 /-! ## constant pool -/
 
@@ -170,6 +202,27 @@ through what those indices resolve to. -/
 theorem pool_read (es : List PoolEntry) (hes : ∀ e ∈ es, PoolEntryOk e) (hcount : poolCount es < 65536) (r : Bytes) :
     readPool (encPool es ++ r) = ok (poolTable es, r) :=
   readPool_enc es hes hcount r
+
+/-- a pool with `k` `Dynamic` constants (indices 4 .. 3+k), the `j`-th taking the next one as its only bootstrap
+argument -/
+def chainPool (k : Nat) : Pool :=
+  poolTable ([.utf8 [120], .utf8 [73], .nameAndType 1 2] ++ (List.range k).map (fun j => PoolEntry.dynamic j 3))
+
+def chainBsms (k : Nat) : List Bsm := (List.range k).map (fun j => ⟨default, if j + 1 < k then [5 + j] else []⟩)
+
+def isErr {α : Type} : Outcome α → Bool
+  | .err => true
+  | _ => false
+
+/-- `dynamic_depth_limit_witness` (deliberate limit of the reader since cb2ce34, `MAX_BOOTSTRAP_ARGUMENT_DEPTH = 16`): a
+`Dynamic` constant whose bootstrap arguments nest 16 further `Dynamic` constants is resolved, one that nests 17 is an
+error although the class file is valid — and so is, in particular, every constant reachable from its own arguments
+(it used to exhaust the stack) -/
+theorem dynamic_depth_limit_witness :
+    Outcome.isOk (Pool.getLoadable (chainPool 17) (some (chainBsms 17)) 4) = true ∧
+    isErr (Pool.getLoadable (chainPool 18) (some (chainBsms 18)) 4) = true ∧
+    isErr (Pool.getLoadable (poolTable [.utf8 [120], .utf8 [73], .nameAndType 1 2, .dynamic 0 3]) (some [⟨default, [4]⟩]) 4) = true := by
+  decide +kernel
 
 /-! ## the class file -/
 
